@@ -36,6 +36,10 @@ CHECKS = {
    text="3 protocols x verifying role x 22 credential defects x chain depth x instance; the verifying endpoint must not report a completed handshake, and the control cell must complete. Quick tier samples cells through Hypothesis, thorough covers each cell several times.",
    note="Trusted: Python PKI builder; frozen clock. The defective peer is the library itself with doctored TLS_CONNECT fields (sign_key, kenc_key, client_certs_len).",
    design="4/C09"),
+ "C11": dict(level="exploration", technique="property-based testing (Hypothesis): round trip, differential interoperability with a Python record-layer model in both directions, generated edit neighbourhood that must be rejected, exact-size output buffers under ASan, and record duplication/swap/drop/replay on live connections through the proxy",
+   text="Generated keys/sequence numbers/types/payload lengths 0..16384/padding for SM4-CBC+HMAC-SM3 and TLS 1.3 SM4-GCM records; each protected record gets a generated neighbourhood (bit flips of body and authenticated header fields, length changes, truncation/extension, other sequence numbers, all-padding plaintexts) that must be rejected; live connections of all three protocols must only ever accept a prefix of what was sent. Sampled neighbourhood in quick, larger in thorough; not exhaustive.",
+   note="Trusted: vlib/ref/tlsrec.py over OpenSSL SM4 and the Python GCM. Record buffers are exactly as long as their header says (tls_record_recv's postcondition).",
+   design="4/C11"),
 }
 
 NOT_YET = {
